@@ -107,12 +107,24 @@ def instances(tier, seed):
             crate="hk_hal", family="ring.law_automorphism", name=f"c09_law_automorphism_n{n}",
             call=f"crate::c09::law_automorphism::<{KERN['fft64']}, {n}, {n}>()", unwind=30, params={"n": n},
             symbolic=["g, h: all odd, |.|<2^12", "coefficients (full i64)"], functions=[f"{V}/automorphism.rs::vec_znx_automorphism"], timeout=1200, core=(n == 4)))
+    BIG = ["add_into", "add_assign", "add_small_into", "add_small_assign", "sub", "sub_assign", "sub_negate_assign", "sub_small_a", "sub_small_b", "sub_small_a_assign", "sub_small_b_assign", "negate", "negate_assign", "automorphism", "automorphism_assign"]
+    for op, oname in enumerate(BIG):
+        for rs, a_s, bs in ((2, 2, 2), (3, 2, 1), (2, 3, 1), (2, 1, 3)):
+            for sel in range(4):
+                n = 2
+                out.append(Instance(
+                    crate="hk_hal", family=f"big.{oname}", name=f"c09_big_{oname}_rs{rs}_as{a_s}_bs{bs}_c{sel}",
+                    call=f"crate::c09_big::big_linear::<{rs}, {a_s}, {bs}, {n*COLS*(rs+1)}, {n*COLS*a_s}, {n*COLS*bs}, {op}>({sel})", unwind=n * COLS * 4 + 6,
+                    params={"op": oname, "n": n, "res_size": rs, "a_size": a_s, "b_size": bs, "cols_sel": sel},
+                    symbolic=["coefficients |x|<2^62", "prior res content", "Galois element (automorphism ops)"],
+                    functions=[f"poulpy-cpu-ref/src/reference/fft64/vec_znx_big.rs::vec_znx_big_{oname}"], timeout=600,
+                    core=((rs, a_s, bs) == (3, 2, 1) and sel == 0) or ((rs, a_s, bs) == (2, 3, 1) and sel == 1 and op in (7, 8, 9, 10))))
     return out
 
 
 META = {
     "bounds": "ring degree N in {1,2,4,8,16} (concrete), limb counts 1..3, 3 columns with five concrete column assignments (distinct and coinciding), every rotation amount in [-4N,4N] enumerated, Galois element symbolic over all odd |g|<2^20",
-    "outside": "N > 16 (index arithmetic is mask-based, no new case split), big-accumulator (VecZnxBig) forms, AVX kernels (C10)",
+    "outside": "N > 16 (index arithmetic is mask-based, no new case split), the NTT120 (i128) big-accumulator forms, AVX kernels (C10)",
     "assumptions": ["|coefficients| < 2^62 for add/sub families (plain +/- of the reference panics on overflow in dev, wraps in release)"],
     "stubs": [],
 }
